@@ -788,6 +788,10 @@ def main():
             run.count("violations_not_written_out", v["nbad"] - len(v["bad"]))
         for b in v["bad"]:
             run.violation(b["what"].split(":")[0], b, mech={"what": b["what"], "error": b.get("error", "")})
+    # ---- history workloads: objects used, modified through their setters / re-used, used again (vf/history.py) ----
+    from vf.sandbox import run_extra as _run_extra
+    from vf.common import seed as _seed, tier as _tier
+    _run_extra(run, "vf.history:h_reaction_setters", [{"seed": _seed(), "idx": _i} for _i in range(800 if _tier() == "thorough" else 80)], cpu_budget=120, kind_prefix="history: ")
     return run.finish()
 
 
